@@ -552,6 +552,8 @@ class GroupValueWrite(APCI):
         """Serialize to KNX/IP raw data."""
         if isinstance(self.value, DPTBinary):
             return encode_cmd_and_payload(self.CODE, encoded_payload=self.value.value)
+        if not self.value.value:
+            raise ConversionError("DPTArray payload must not be empty.")
 
         return encode_cmd_and_payload(
             self.CODE, appended_payload=bytes(self.value.value)
@@ -591,6 +593,8 @@ class GroupValueResponse(APCI):
         """Serialize to KNX/IP raw data."""
         if isinstance(self.value, DPTBinary):
             return encode_cmd_and_payload(self.CODE, encoded_payload=self.value.value)
+        if not self.value.value:
+            raise ConversionError("DPTArray payload must not be empty.")
         return encode_cmd_and_payload(
             self.CODE, appended_payload=bytes(self.value.value)
         )
@@ -731,6 +735,8 @@ class ADCResponse(APCI):
 
     def to_knx(self) -> bytearray:
         """Serialize to KNX/IP raw data."""
+        if not 0 <= self.channel <= DPTBinary.APCI_BITMASK:
+            raise ConversionError("Channel out of range.")
         payload = struct.pack("!BBH", self.channel, self.count, self.value)
 
         return encode_cmd_and_payload(
@@ -773,6 +779,8 @@ class ADCRead(APCIRequest[ADCResponse]):
 
     def to_knx(self) -> bytearray:
         """Serialize to KNX/IP raw data."""
+        if not 0 <= self.channel <= DPTBinary.APCI_BITMASK:
+            raise ConversionError("Channel out of range.")
         payload = struct.pack("!BB", self.channel, self.count)
 
         return encode_cmd_and_payload(
@@ -2707,7 +2715,7 @@ class UserMemoryBitWrite(APCI):
         if not 0 <= self.address <= 0xFFFF:
             raise ConversionError("Address out of range.")
         number = len(self.and_data)
-        if not 0 <= number <= 0xFF:
+        if not 1 <= number <= 0xFF:
             raise ConversionError("Number out of range.")
         if len(self.xor_data) != number:
             raise ConversionError("and_data and xor_data must have the same length.")
@@ -2751,6 +2759,8 @@ class UserManufacturerInfoResponse(APCI):
 
     def to_knx(self) -> bytearray:
         """Serialize to KNX/IP raw data."""
+        if len(self.data) != 2:
+            raise ConversionError("Data must be 2 bytes.")
         payload = struct.pack("!B2s", self.manufacturer_id, self.data)
 
         return encode_cmd_and_payload(self.CODE, appended_payload=payload)
@@ -3015,6 +3025,8 @@ class FilterTableWrite(APCI):
             raise ConversionError("Number out of range.")
         if not 0 <= self.filter_table_address <= 0xFFFF:
             raise ConversionError("Filter table address out of range.")
+        if not self.data:
+            raise ConversionError("Data must not be empty.")
 
         size = len(self.data)
         payload = struct.pack(
@@ -3206,6 +3218,8 @@ class RouterMemoryWrite(APCI):
             raise ConversionError("Number out of range.")
         if not 0 <= self.memory_address <= 0xFFFF:
             raise ConversionError("Memory address out of range.")
+        if not self.data:
+            raise ConversionError("Data must not be empty.")
 
         size = len(self.data)
         payload = struct.pack(
@@ -3536,7 +3550,7 @@ class MemoryBitWrite(APCI):
         if not 0 <= self.memory_address <= 0xFFFF:
             raise ConversionError("Memory address out of range.")
         number = len(self.and_data)
-        if not 0 <= number <= 0xFF:
+        if not 1 <= number <= 0xFF:
             raise ConversionError("Number out of range.")
         if len(self.xor_data) != number:
             raise ConversionError("and_data and xor_data must have the same length.")
@@ -3741,6 +3755,8 @@ class PropertyValueWrite(APCI):
         """Serialize to KNX/IP raw data."""
         if not 0 <= self.count <= 0xF:
             raise ConversionError("Count out of range.")
+        if not 0 <= self.start_index <= 0xFFF:
+            raise ConversionError("Start index out of range.")
 
         size = len(self.data)
         payload = struct.pack(
@@ -3838,6 +3854,8 @@ class PropertyValueResponse(APCI):
         """Serialize to KNX/IP raw data."""
         if not 0 <= self.count <= 0xF:
             raise ConversionError("Count out of range.")
+        if not 0 <= self.start_index <= 0xFFF:
+            raise ConversionError("Start index out of range.")
 
         size = len(self.data)
         payload = struct.pack(
@@ -3907,6 +3925,8 @@ class PropertyValueRead(APCIRequest[PropertyValueResponse]):
         """Serialize to KNX/IP raw data."""
         if not 0 <= self.count <= 0xF:
             raise ConversionError("Count out of range.")
+        if not 0 <= self.start_index <= 0xFFF:
+            raise ConversionError("Start index out of range.")
 
         payload = struct.pack(
             "!BBBB",
